@@ -269,6 +269,30 @@ def rule_r3(ck, prog, rule='C20.R3'):
         mins = [n for n in c.nodes if n['k'] == 'call' and strip_targs(n.get('c', '')) == 'std::min']
         ok = bool(mins) and len(conds) >= 2 and sizes >= 6
         ck.verdict(ok, rule, c, 'compare-orders-by-size-on-equal-prefix', conds[0] if conds else None, 'prefix of min(size) compared, then sizes' if ok else 'compare() does not order by size when the common prefix is equal')
+        # the characters are ordered as unsigned bytes (what char_traits<char>::compare / memcmp do): a hand-written relational
+        # comparison of two element reads must convert both to unsigned char first
+        bad = None
+        for n in c.nodes:
+            cm = comparison(c, n['i'])
+            if not cm or cm[0] not in ('<', '>', '<=', '>='):
+                continue
+            def elem(idx):
+                m = c.nodes[idx]
+                unsigned = False
+                for _ in range(6):
+                    if m['k'] == 'cast':
+                        if 'unsigned char' in (m.get('t') or '') or 'uint8_t' in (m.get('t') or ''):
+                            unsigned = True
+                        m = c.nodes[m['e']]
+                    else:
+                        break
+                is_elem = m['k'] == 'subscript' or (m['k'] == 'call' and m.get('op') == '[]') or (m['k'] == 'unop' and m['op'] == '*')
+                return is_elem and 'char' in (m.get('t') or 'char'), unsigned
+            (e1, u1), (e2, u2) = elem(cm[1]), elem(cm[2])
+            if e1 and e2 and not (u1 and u2):
+                bad = n
+        ck.verdict(bad is None, rule, c, 'compare-orders-bytes-unsigned', bad, 'characters ordered by Traits::compare (unsigned bytes)' if bad is None else
+                   'compare() orders two characters with a relational operator on (signed) char: bytes >= 0x80 sort below ASCII, so ordering (operator<, std::map keys) differs from std::string_view for UTF-8 text')
 
 
 def rule_r4(ck, prog, rule='C20.R4'):
@@ -321,7 +345,7 @@ def rule_r4(ck, prog, rule='C20.R4'):
 def run(ck, prog):
     ck.doc('C20.R1', 'assignment typestate: object-identity guard, source taken before release; unique_ptr: ptr_ written only through reset/release/swap, reset deletes first, every assignment overload', 11)
     ck.doc('C20.R2', 'type-level witnesses (static_assert unit compiled with the build flags)', 22)
-    ck.doc('C20.R3', 'string_view equality cannot hold for different lengths; compare falls back to sizes', 2)
+    ck.doc('C20.R3', 'string_view equality cannot hold for different lengths; compare falls back to sizes and orders characters as unsigned bytes', 3)
     ck.doc('C20.R4', 'substr / find guards and offsets', 4)
     ck.doc('C20.R5', 'std::hash<nostd::string_view> depends on the characters only', 1)
     with ck.canary('C20.R1'):
